@@ -102,6 +102,7 @@ type wConc struct {
 	Shuffled  bool    `json:"shuffled"` // packets of a file not written in timestamp order
 	Overlap   bool    `json:"overlap"`  // capture files overlap in time (some packets are in the next file: a second capture point)
 	SameHosts bool    `json:"sameHosts"` // all conversations between one pair of hosts, ports with equal XOR (one reassembler bucket)
+	Alias     []int   `json:"alias"`     // alias[c-1] = the earlier, finished conversation whose 4-tuple conversation c uses again (0: its own)
 }
 
 type wEndpoint struct {
@@ -113,6 +114,9 @@ type wEndpoint struct {
 // all of them (40000+c ^ 1000+c = 40000 ^ 1000 for c < 8): the flows share one bucket of the UDP reassembler's
 // connection table.  Chosen per world (a third of the schedules).
 func (w *wWorld) endpoints(c int, fam int) (cl, sv wEndpoint) {
+	if c >= 1 && c <= len(w.conc.Alias) && w.conc.Alias[c-1] != 0 {
+		c = w.conc.Alias[c-1]
+	}
 	if w.conc.SameHosts && c < wBulkBase && c < 8 {
 		if fam == 6 {
 			return wEndpoint{net.ParseIP("fd00::2"), uint16(40000 + c)}, wEndpoint{net.ParseIP("fd00::1:3"), uint16(1000 + c)}
@@ -315,6 +319,32 @@ func wBuildWorld(s *wSchedule, stage string, bulkGoal int) (*wWorld, error) {
 	w.conc.BulkGoal = bulkGoal
 	w.conc.BulkN = []int{}
 	w.conc.Cls, w.conc.ISN, w.conc.Wrap = []int{}, [][2]int{}, []bool{}
+	// Tuple reuse (every fifth schedule, not in the worlds of C08): a TCP conversation that starts after another one of the
+	// same family has sent its last packet uses the same addresses and ports (a client port that is used again).
+	w.conc.Alias = make([]int, len(s.Convs))
+	if (int64(s.Sid)+seed)%5 == 3 && !strings.HasPrefix(s.Regime, "world") {
+		first, last := map[int]int{}, map[int]int{}
+		for wi, p := range s.Wire {
+			if p.C >= 1 && p.C <= len(s.Convs) {
+				if _, ok := first[p.C]; !ok {
+					first[p.C] = wi
+				}
+				last[p.C] = wi
+			}
+		}
+	pairs:
+		for c2 := 1; c2 <= len(s.Convs); c2++ {
+			for c1 := 1; c1 <= len(s.Convs); c1++ {
+				_, ok1 := first[c1]
+				_, ok2 := first[c2]
+				if c1 != c2 && ok1 && ok2 && s.Convs[c1-1].Proto == "tcp" && s.Convs[c2-1].Proto == "tcp" &&
+					s.Convs[c1-1].Fam == s.Convs[c2-1].Fam && last[c1] < first[c2] {
+					w.conc.Alias[c2-1] = c1
+					break pairs
+				}
+			}
+		}
+	}
 	all4, all6 := true, true
 	maxSeg := make([]int, len(s.Convs))
 	for _, p := range s.Wire {
@@ -354,7 +384,9 @@ func wBuildWorld(s *wSchedule, stage string, bulkGoal int) (*wWorld, error) {
 		}
 		w.conc.Wrap = append(w.conc.Wrap, wrap)
 		cl, sv := w.endpoints(i+1, cv.Fam)
-		w.tuples[wKey(cl.ip, cl.port, sv.ip, sv.port)] = i + 1
+		if w.conc.Alias[i] == 0 {
+			w.tuples[wKey(cl.ip, cl.port, sv.ip, sv.port)] = i + 1
+		}
 	}
 	w.conc.Link = "eth"
 	if r := rng.Intn(3); r == 0 && all4 {
@@ -401,7 +433,8 @@ func wBuildWorld(s *wSchedule, stage string, bulkGoal int) (*wWorld, error) {
 	// timestamp is unique move: the order of packets with equal timestamps is given by file and position.
 	// (not in the worlds of C08: spec/Import.tla predicts the added / updated / reset streams of an import from the time
 	// ranges of the files and assumes that files do not overlap)
-	w.conc.Overlap = w.conc.Shuffled && (int64(s.Sid)+seed)%8 == 2 && !strings.HasPrefix(s.Regime, "world")
+	// (a recorded schedule carries the files the packets were written to: VERIF_WIRE_AS_RECORDED=1 replays it as it is)
+	w.conc.Overlap = w.conc.Shuffled && (int64(s.Sid)+seed)%8 == 2 && !strings.HasPrefix(s.Regime, "world") && os.Getenv("VERIF_WIRE_AS_RECORDED") != "1"
 	atCount := map[int64]int{}
 	for _, p := range s.Wire {
 		atCount[p.At]++
@@ -675,6 +708,15 @@ func (w *wWorld) project(st *index.Stream) (wStream, error) {
 			runBytes[n-1][1] += len(d.Content)
 		} else {
 			runBytes = append(runBytes, [2]int{dir, len(d.Content)})
+		}
+	}
+	// two conversations on one 4-tuple: the payload says which one this stream holds (every unit carries its conversation)
+	for dir := 0; dir < 2; dir++ {
+		if len(pay[dir]) >= 2 && pay[dir][0] == wMagic {
+			if c := int(pay[dir][1]); c >= 1 && c <= len(w.conc.Alias) && w.conc.Alias[c-1] == res.Conv && res.Conv != 0 {
+				res.Conv = c
+			}
+			break
 		}
 	}
 	res.CD, res.SD = wDigest(pay[0]), wDigest(pay[1])
